@@ -55,3 +55,7 @@ mod tests {
         assert_eq!(request.fork_id, new_request.fork_id);
     }
 }
+
+#[cfg(all(test, saito_verif))]
+#[path = "/verif/replay/in_crate/block_request.rs"]
+mod verif_replay;
